@@ -101,23 +101,64 @@ def gen_spec(rng):
 
 
 def gen_fmt(rng, which, decodable=True):
-    """A format for one side. decodable: literal after each placeholder starts with a non-blank,
-    non-digit character, so that the field boundaries can be read back from the output."""
+    """A format for one side (`which` = the placeholder that side carries by default). Also generated:
+    the *other* placeholder in this side ({np} in the left format, {nm} in the right one), both in
+    one column, repeated placeholders, no placeholder at all, the empty format. Every placeholder is
+    followed by a literal starting with a non-blank, non-digit character, so that the number cells
+    can be read back from the output without knowing their width."""
+    other = "np" if which == "nm" else "nm"
     k = rng.random()
+    if k < 0.05:
+        return Fmt([])                                             # empty format
     parts = []
     pre = rng.choice(["", "", "│", "L", "[", "# "])
     if pre:
         parts.append(("lit", pre))
-    if k < 0.08:
+    if k < 0.10:
         parts.append(("lit", rng.choice(["x", "│", "--"])))     # no placeholder at all
         return Fmt(parts)
-    parts.append(("ph", which, gen_spec(rng)))
-    if k < 0.2:
+    phs = rng.choice([[which], [which], [which], [which], [other], [other], [which, other], [other, which],
+                      [which, which], [other, other], [which, other, which]])
+    for ph in phs:
+        parts.append(("ph", ph, gen_spec(rng)))
         parts.append(("lit", rng.choice(SUF_CHARS)))
-        parts.append(("ph", "np" if which == "nm" else "nm", gen_spec(rng)))   # both numbers in one field
-    parts.append(("lit", rng.choice(SUF_CHARS)))
     return Fmt(parts)
 
+
+def cell_list(f, m, pre):
+    """[(placeholder, number | None, cell text)] of the number cells of a decoded field."""
+    out, i = [], 0
+    for q in f.parts:
+        if q[0] == "ph":
+            txt = m.group(f"{pre}_{q[1]}{i}")
+            out.append((q[1], cell_number(txt), txt))
+            i += 1
+    return out
+
+
+def cells_wrong(cells, old, new, own=None):
+    """The property on one decoded field: every {nm} cell shows `old`, every {np} cell `new`
+    (None = blank). `own` = None: one gutter per line (unified view), every cell exact. `own` =
+    'nm' / 'np': a side-by-side panel — the cells of the panel's own kind are exact, a cell of the
+    other kind may also be blank (the panel is painted with its own line's state). Returns None or
+    (description, the failing cell is of the other kind)."""
+    for kind, num, _ in cells:
+        want = old if kind == "nm" else new
+        if num == want or (own is not None and kind != own and num is None):
+            continue
+        return (f"{{{kind}}} cell shows {num}, true value {want}", own is not None and kind != own)
+    return None
+
+
+def check_gutter(f, text, old, new, own=None):
+    """Decode a gutter text with the format's own structure and apply `cells_wrong`."""
+    m = re.fullmatch(f.regex("g"), text)
+    if not m:
+        return (f"gutter {text!r} does not have the shape of format {f.text()!r}", False)
+    return cells_wrong(cell_list(f, m, "g"), old, new, own)
+
+
+CROSS_SIG = "cross-placeholder-in-empty-half"
 
 DEFAULT_FMTS = {False: (Fmt([("ph", "nm", ":^4"), ("lit", "⋮")]), Fmt([("ph", "np", ":^4"), ("lit", "│")])),
                 True: (Fmt([("lit", "│"), ("ph", "nm", ":^4"), ("lit", "│")]),
@@ -261,16 +302,19 @@ def run_machine(ctx, rep, hook, mdl):
         if ci < 2:
             args = ["-s", "--width=80"] if ci else ["-n"]
             sbs = bool(ci)
+            fl, fr = DEFAULT_FMTS[sbs]
         else:
             fl, fr = gen_fmt(rng, "nm", False), gen_fmt(rng, "np", False)
             args = (["--side-by-side", "--width=" + str(rng.randint(30, 120))] if sbs else ["--line-numbers"])
             if rng.random() < 0.8:
                 args += ["--line-numbers-left-format=" + fl.text(), "--line-numbers-right-format=" + fr.text()]
+            else:
+                fl, fr = DEFAULT_FMTS[sbs]
         sticky.append(len(reqs))
         reqs.append("cfg " + " ".join(hx(a) for a in args))
-        meta.append(("cfg", args))
+        meta.append(("cfg", args, None))
         reqs.append("linenum.config")
-        meta.append(("config", args))
+        meta.append(("config", args, None))
         for _ in range(ctx.n(25, 120)):
             npairs = rng.choice([2, 2, 2, 2, 2, 2, 2, 2, 2, 2, 2, 1, 3, 3, 0])
             weird = rng.random() < 0.04      # a panel-less call in side-by-side mode: unreachable!()
@@ -281,22 +325,34 @@ def run_machine(ctx, rep, hook, mdl):
                     s = USIZE_MAX - rng.randint(0, 3)
                 pairs.append((s, rng.choice([1, 0, rng.randint(0, 40)])))
             steps = []
+            plain = (not sbs) and rng.random() < 0.7     # unified: a plain sequence of hunk lines (panel None throughout)
             for _ in range(rng.randint(0, 14)):
                 st = rng.choice([0, 0, 2, 2, 4, 4, 1, 3, 5, 6])
                 if sbs:
                     panel = 0 if weird else rng.choice([1, 2])
                 else:
-                    panel = rng.choice([0, 0, 0, 1, 2])
+                    panel = 0 if plain else rng.choice([0, 0, 0, 1, 2])
                 steps.append((st, panel))
             r = f"linenum.machine {len(pairs)} " + " ".join(f"{a} {b}" for a, b in pairs)
             r += f" {len(steps)} " + " ".join(f"{a} {b}" for a, b in steps)
             reqs.append(" ".join(r.split()))
-            meta.append(("machine", (tuple(args), tuple(pairs), tuple(steps))))
+            meta.append(("machine", (tuple(args), tuple(pairs), tuple(steps)), (sbs, fl, fr, reqs[-1])))
     impl = hook.ask(reqs, sticky=sticky)
     model = mdl.ask(reqs, sticky=sticky) if mdl else [None] * len(reqs)
-    for (op, case), i, m in zip(meta, impl, model):
+    for (op, case, extra), i, m in zip(meta, impl, model):
         if op == "cfg":
             continue
+        if op == "machine" and not extra[0]:
+            sbs_, fl_, fr_, req_ = extra
+            bad = machine_oracle(fl_, fr_, case[1], case[2], i)
+            if bad == "n/a":
+                rep.count("machine:oracle-not-applicable")
+            else:
+                rep.count("machine:oracle-checked")
+                if bad:
+                    rep.violation("machine:numbers-wrong", bad, dict(kind="hook-machine", cfg=list(case[0]), req=req_,
+                                                                      pairs=list(case[1]), steps=list(case[2]),
+                                                                      fl=fl_.parts, fr=fr_.parts, got=i))
         big = op == "machine" and case[1] and max(a + b for a, b in case[1]) >= 10 ** 14
         rep.case(key=(op, case), nontrivial=op == "machine" and len(case[2]) >= 2,
                  sample=dict(op=op, case=case, impl=i) if rep.evaluations % 300 == 0 else None)
@@ -310,6 +366,51 @@ def run_machine(ctx, rep, hook, mdl):
             else:
                 ok = same(i, m)
             rep.corr_case("linenum." + op, ok, dict(op=op, case=case, impl=i, model=m))
+
+
+def machine_oracle(fl, fr, pairs, steps, ans):
+    """The property on a `linenum.machine` answer, independent of the model, for a unified-view
+    sequence of hunk lines (two coordinate pairs, panel None throughout, numbers inside usize):
+    the gutters the implementation printed are decoded with the format's structure and every
+    {nm}/{np} cell is compared with the true old/new number counted from the header starts.
+    Returns None (holds), "n/a" (not such a sequence) or a description of the failure."""
+    if len(pairs) != 2 or any(p != 0 for _, p in steps):
+        return "n/a"
+    old, new = pairs[0][0], pairs[1][0]
+    if max(old, new) + len(steps) > USIZE_MAX or max(a + b for a, b in pairs) > USIZE_MAX:
+        return "n/a"
+    if not ans.startswith("ok "):
+        return "initialize_hunk / paint_line failed: " + ans[:120]
+    f = ans.split()
+    n = int(f[2])
+    guts = [unhxs(x) for x in f[3:3 + n]]
+    if n != len(steps):
+        return f"{n} gutters for {len(steps)} lines"
+    rx = re.compile(fl.regex("l") + fr.regex("r"))
+    for t, ((st, _), g) in enumerate(zip(steps, guts)):
+        if st == 6:
+            want = None
+        elif st == 0:
+            want = (old, None); old += 1
+        elif st == 2:
+            want = (old, new); old += 1; new += 1
+        elif st == 4:
+            want = (None, new); new += 1
+        else:
+            want = (None, None)
+        if want is None:
+            if g != "":
+                return f"step {t}: a non-hunk state printed a gutter {g!r}"
+            continue
+        m = rx.fullmatch(g)
+        if not m:
+            return f"step {t}: gutter {g!r} does not have the shape of formats {fl.text()!r} / {fr.text()!r}"
+        bad = cells_wrong(cell_list(fl, m, "l"), *want) or cells_wrong(cell_list(fr, m, "r"), *want)
+        if bad:
+            return f"step {t} (state {st}, true old/new {want}), gutter {g!r}: {bad[0]}"
+    if [int(f[3 + n]), int(f[4 + n])] != [old, new]:
+        return f"counters after the lines ({f[3 + n]},{f[4 + n]}) != ({old},{new})"
+    return None
 
 
 # ------------------------------------------------------------------ side-by-side blocks, explicit alignment
@@ -374,31 +475,33 @@ def line_of_rows(target, textw):
 
 
 def true_sbs_rows(a, c, al, wl, wr):
-    """The property, for one subhunk: expected (left number, right number) of every row."""
+    """The property, for one subhunk: per row (old, new) = the numbers of the lines that *start* in
+    that row (None otherwise), and whether the left / right panel holds no line text at all."""
     rows = []
     for mi, pi in al:
-        n = max(wl[mi] if mi is not None else 0, wr[pi] if pi is not None else 0)
-        rows.append((None if mi is None else a + mi, None if pi is None else c + pi))
-        rows += [(None, None)] * (n - 1)
+        x = wl[mi] if mi is not None else 0
+        y = wr[pi] if pi is not None else 0
+        for k in range(max(x, y)):
+            first = k == 0
+            rows.append(((a + mi if (first and mi is not None) else None, c + pi if (first and pi is not None) else None),
+                         k >= x, k >= y))
     return rows
+
+
+def sbs_row_check(fl, fr, lg, rg, nums, lempty, rempty):
+    """One side-by-side row: left panel ({nm} exact, {np} blank or true), right panel ({np} exact,
+    {nm} blank or true). Returns None or (description, signature suffix)."""
+    for f, g, own, empty in ((fl, lg, "nm", lempty), (fr, rg, "np", rempty)):
+        bad = check_gutter(f, g, nums[0], nums[1], own)
+        if bad:
+            return (("left" if own == "nm" else "right") + " panel: " + bad[0],
+                    CROSS_SIG if (bad[1] and empty) else "numbers-wrong")
+    return None
 
 
 def decode_sbs(rows, lw, rw, pl, fl, fr):
     """(left gutter text, right gutter text) of each painted row."""
     return [(col_slice(r, 0, lw), col_slice(r, pl, rw)) for r in rows]
-
-
-def gutter_numbers(fl, fr, lg, rg):
-    """Numbers visible in the {nm} cells of the left gutter and the {np} cells of the right one."""
-    out = []
-    for f, g, want in ((fl, lg, "nm"), (fr, rg, "np")):
-        m = re.fullmatch(f.regex("g"), g)
-        if not m:
-            out.append("undecodable")
-            continue
-        vals = {cell_number(v) for k, v in m.groupdict().items() if k.startswith("g_" + want)}
-        out.append(vals)
-    return out
 
 
 def run_sbs_blocks(ctx, rep, hook, mdl):
@@ -513,22 +616,21 @@ def run_sbs_blocks(ctx, rep, hook, mdl):
             rep.corr_case("linenum.sbs_block", ok, dict(replay, impl_gutters=gut, impl_counters=[left, right], model=mm))
         bad = sbs_oracle(fl, fr, a, c, m, p, al, rwl, rwr, rows, gut, left, right)
         if bad:
-            rep.violation("sbs_block:numbers-wrong", bad, dict(replay, rows=rows))
+            rep.violation("sbs_block:" + bad[1], bad[0], dict(replay, rows=rows))
 
 
 def sbs_oracle(fl, fr, a, c, m, p, al, rwl, rwr, rows, gut, left, right):
-    """The property on one painted subhunk (side-by-side): None or a description of the failure."""
+    """The property on one painted subhunk (side-by-side): None or (description, signature suffix).
+    Every number cell of both gutters is checked, whichever placeholder it holds."""
     want = true_sbs_rows(a, c, al, rwl, rwr)
     if len(want) != len(rows):
-        return f"{len(rows)} rows painted, {len(want)} expected"
-    for t, ((lg, rg), (wn, wp)) in enumerate(zip(gut, want)):
-        ln, rn = gutter_numbers(fl, fr, lg, rg)
-        exp_l = {wn} if any(q[0] == "ph" and q[1] == "nm" for q in fl.parts) else set()
-        exp_r = {wp} if any(q[0] == "ph" and q[1] == "np" for q in fr.parts) else set()
-        if ln != exp_l or rn != exp_r:
-            return f"row {t}: shows left={ln} right={rn}, true left={wn} right={wp}"
+        return (f"{len(rows)} rows painted, {len(want)} expected", "numbers-wrong")
+    for t, ((lg, rg), (nums, le, re_)) in enumerate(zip(gut, want)):
+        bad = sbs_row_check(fl, fr, lg, rg, nums, le, re_)
+        if bad:
+            return (f"row {t} (lines starting here: old/new {nums}): {bad[0]}", bad[1])
     if (left, right) != (a + m, c + p):
-        return f"counters after the subhunk ({left},{right}) != ({a + m},{c + p})"
+        return (f"counters after the subhunk ({left},{right}) != ({a + m},{c + p})", "numbers-wrong")
     return None
 
 
@@ -648,14 +750,14 @@ def run_blocks(ctx, rep, hook, mdl):
             else:
                 gut += [(col_slice(r, 0, lw), col_slice(r, lw, rw)) for r in rows]
             if b[0] == "z":
-                want.append((ca, cc)); want += [(None, None)] * (o[2] - 1)
+                want.append(("z", (ca, cc))); want += [("z", (None, None))] * (o[2] - 1)
                 ca += 1; cc += 1
             elif sbs:
-                want += true_sbs_rows(ca, cc, o[2], o[3], o[4])
+                want += [("s",) + w_ for w_ in true_sbs_rows(ca, cc, o[2], o[3], o[4])]
                 ca += len(b[1]); cc += len(b[2])
             else:
-                want += [(ca + i, None) for i in range(len(b[1]))]; ca += len(b[1])
-                want += [(None, cc + j) for j in range(len(b[2]))]; cc += len(b[2])
+                want += [("z", (ca + i, None)) for i in range(len(b[1]))]; ca += len(b[1])
+                want += [("z", (None, cc + j)) for j in range(len(b[2]))]; cc += len(b[2])
         if k in mans and mans[k] is not None:
             mm, ok = mans[k], False
             if mm.startswith("ok "):
@@ -671,22 +773,23 @@ def run_blocks(ctx, rep, hook, mdl):
                     ok = mg == [l + r for l, r in gut]
                 ok = ok and [int(x) for x in tail] == [left, right]
             rep.corr_case("linenum.blocks", ok, dict(replay, impl_gutters=gut, impl_counters=[left, right], model=mm))
-        bad = None
+        bad, sig = None, "numbers-wrong"
         if len(gut) != len(want):
             bad = f"{len(gut)} rows painted, {len(want)} expected"
         else:
-            for t, ((lg, rg), (wn, wp)) in enumerate(zip(gut, want)):
-                ln, rn = gutter_numbers(fl, fr, lg, rg)
-                exp_l = ({wn} if any(q[0] == "ph" and q[1] == "nm" for q in fl.parts) else set()) if ln != "undecodable" else None
-                exp_r = ({wp} if any(q[0] == "ph" and q[1] == "np" for q in fr.parts) else set()) if rn != "undecodable" else None
-                # a field may carry both placeholders: the other one is then checked below
-                if ln != exp_l or rn != exp_r:
-                    bad = f"row {t}: shows left={ln} right={rn}, true left={wn} right={wp}"
+            for t, ((lg, rg), w_) in enumerate(zip(gut, want)):
+                if w_[0] == "z":      # one line per row, the same pair in both fields / panels: exact
+                    r_ = check_gutter(fl, lg, *w_[1]) or check_gutter(fr, rg, *w_[1])
+                    r_ = (r_[0], "numbers-wrong") if r_ else None
+                else:
+                    r_ = sbs_row_check(fl, fr, lg, rg, w_[1], w_[2], w_[3])
+                if r_:
+                    bad, sig = f"row {t} (true old/new {w_[1]}): {r_[0]}", r_[1]
                     break
             if bad is None and (left, right) != (ca, cc):
                 bad = f"counters after the hunk ({left},{right}) != ({ca},{cc})"
         if bad:
-            rep.violation("blocks:numbers-wrong:" + ("sbs" if sbs else "unified"), bad, dict(replay, gutters=gut))
+            rep.violation("blocks:" + sig + ":" + ("sbs" if sbs else "unified"), bad, dict(replay, gutters=gut))
 
 
 # ------------------------------------------------------------------ binary level
@@ -832,14 +935,24 @@ def check_binary_case(ctx, case):
         if int(m.group(2)) != h["c"]:
             res["fail"] = ("header:number-wrong", f"header shows line {m.group(2)}, new-file start is {h['c']}")
             return res
-        # ---- gutter rows
+        # ---- rows of the hunk: everything after the header row up to the first empty row, except
+        # the "\\ No newline at end of file" marker (selected by position, not by the gutter's
+        # looks: a format may be empty)
+        hrows = []
+        for r in seg["rows"]:
+            if r == "":
+                break
+            if r.startswith("\\ No newline"):
+                continue
+            hrows.append(r)
         lre = re.compile("^" + fl.regex("l"))
         rre = re.compile("^" + fr.regex("r"))
         shown_rows = []
-        for r in seg["rows"]:
+        for r in hrows:
             ml = lre.match(r)
             if not ml:
-                continue
+                res["fail"] = (("sbs" if sbs else "unified") + ":row-undecodable", f"row {r[:60]!r} does not start with a left number field of format {fl.text()!r}")
+                return res
             if sbs:
                 # the right panel starts at column width/2; a truncated wide character can shift
                 # it by one column (panel geometry is C07's subject): try the neighbours too
@@ -851,32 +964,27 @@ def check_binary_case(ctx, case):
                     if mr:
                         break
                 if not mr:
-                    continue
+                    res["fail"] = ("sbs:row-undecodable", f"right panel of row {r[:80]!r} does not start with a number field of format {fr.text()!r}")
+                    return res
                 lcont, rcont = lpanel[ml.end():], rpanel[mr.end():]
                 shown_rows.append((ml, mr, lcont, rcont))
             else:
                 mr = rre.match(r[ml.end():])
                 if not mr:
-                    continue
+                    res["fail"] = ("unified:row-undecodable", f"row {r[:60]!r}: no right number field of format {fr.text()!r}")
+                    return res
                 cont = r[ml.end() + mr.end():]
                 shown_rows.append((ml, mr, cont, cont))
-        has_nm = any(q[0] == "ph" and q[1] == "nm" for q in fl.parts)
-        has_np = any(q[0] == "ph" and q[1] == "np" for q in fr.parts)
 
-        def cells(m_, pre, want):
-            return [v for k_, v in m_.groupdict().items() if k_.startswith(pre + "_" + want)]
+        def first(cells_, kind):
+            return next((num for k_, num, _ in cells_ if k_ == kind), None)
 
-        def field_ok(f_, m_, pre):
+        def field_ok(cells_, f_):
             # pad_width on the binary: every number cell has width max(spec width, hunk width, digits)
-            i = 0
-            for q in f_.parts:
-                if q[0] != "ph":
-                    continue
-                txt = m_.group(f"{pre}_{q[1]}{i}")
+            for i, (_, _, txt) in enumerate(cells_):
                 w = max(f_.spec_width(i), minw)
                 if len(txt) != max(w, len(txt.strip())):
                     return f"number cell {txt!r} has width {len(txt)}, expected {max(w, len(txt.strip()))}"
-                i += 1
             return None
 
         old_seq = [t for t in h["truth"] if t[0] in "- "]
@@ -884,54 +992,58 @@ def check_binary_case(ctx, case):
         if not sbs:
             lines = [t for t in h["truth"]]
             if len(shown_rows) != len(lines):
-                res["fail"] = ("unified:row-count", f"{len(shown_rows)} numbered rows for {len(lines)} hunk lines")
+                res["fail"] = ("unified:row-count", f"{len(shown_rows)} rows for {len(lines)} hunk lines")
                 return res
-            it = iter(shown_rows)
-            for t in lines:
-                row = next(it, None)
-                ml, mr, cont, _ = row
+            for t, (ml, mr, cont, _) in zip(lines, shown_rows):
                 if (t[3] == "" and cont.strip(" +-") != "") or not cont[keep:].startswith(t[3]):
                     res["fail"] = ("unified:row-order", f"row {cont[:30]!r} does not start the expected line {t[3]!r}")
                     return res
-                ln = {cell_number(v) for v in cells(ml, "l", "nm")}
-                rn = {cell_number(v) for v in cells(mr, "r", "np")}
-                dec["numbers"].append((cell_number(cells(ml, "l", "nm")[0]) if has_nm else None,
-                                       cell_number(cells(mr, "r", "np")[0]) if has_np else None))
-                if (has_nm and ln != {t[1]}) or (has_np and rn != {t[2]}):
-                    res["fail"] = ("unified:numbers-wrong", f"line {t[3]!r} ({t[0]!r}) shows old={ln} new={rn}; true old={t[1]} new={t[2]}")
+                cl, cr = cell_list(fl, ml, "l"), cell_list(fr, mr, "r")
+                dec["numbers"].append((first(cl, "nm"), first(cr, "np")))
+                bad = cells_wrong(cl, t[1], t[2]) or cells_wrong(cr, t[1], t[2])
+                if bad:
+                    res["fail"] = ("unified:numbers-wrong", f"line {t[3]!r} ({t[0]!r}, true old={t[1]} new={t[2]}): {bad[0]}")
                     return res
-                w = field_ok(fl, ml, "l") or field_ok(fr, mr, "r")
+                w = field_ok(cl, fl) or field_ok(cr, fr)
                 if w:
                     res["fail"] = ("unified:field-width", w)
                     return res
         else:
             seen_old, seen_new = [], []
             for ml, mr, lcont, rcont in shown_rows:
-                ln = {cell_number(v) for v in cells(ml, "l", "nm")}
-                rn = {cell_number(v) for v in cells(mr, "r", "np")}
+                cl, cr = cell_list(fl, ml, "l"), cell_list(fr, mr, "r")
                 tl, tr = TOK.match(lcont), TOK.match(rcont)
                 if any(TOKP.match(x) and not (y and (y.group(1) != "k" or y.group(3))) for x, y in ((lcont, tl), (rcont, tr))):
                     res["skip"] = "a line token is cut off by the panel edge"
                     return res
-                exp_l = exp_r = None
-                if tl and tl.group(1) in "ok":
-                    exp_l = int(tl.group(2)); seen_old.append((tl.group(1), exp_l))
-                if tr and tr.group(1) in "nk":
-                    exp_r = int(tr.group(3) if tr.group(1) == "k" else tr.group(2)); seen_new.append((tr.group(1), exp_r))
-                # an empty context line (input written without the leading space): both panels empty,
-                # both numbers shown; it takes its place in the line sequences checked below
-                if not tl and not tr and lcont.strip(" +-") == "" and rcont.strip(" +-") == "" and None not in ln | rn and len(ln | rn) > 0:
-                    if has_nm:
-                        exp_l = next(iter(ln)); seen_old.append(("k", exp_l))
-                    if has_np:
-                        exp_r = next(iter(rn)); seen_new.append(("k", exp_r))
-                    if not has_nm or not has_np:
-                        res["skip"] = "empty context line with a number format that hides one side"
+                # what each panel must show, from the line that starts in it (None = blank)
+                exp_l, exp_r = (None, None), (None, None)
+                if tl and tl.group(1) == "o":
+                    exp_l = (int(tl.group(2)), None); seen_old.append(("o", exp_l[0]))
+                elif tl and tl.group(1) == "k":
+                    exp_l = (int(tl.group(2)), int(tl.group(3))); seen_old.append(("k", exp_l[0]))
+                if tr and tr.group(1) == "n":
+                    exp_r = (None, int(tr.group(2))); seen_new.append(("n", exp_r[1]))
+                elif tr and tr.group(1) == "k":
+                    exp_r = (int(tr.group(2)), int(tr.group(3))); seen_new.append(("k", exp_r[1]))
+                # an empty context line (input written without the leading space; such inputs use the
+                # default formats): both panels empty, both numbers shown; it takes its place in the
+                # line sequences checked below
+                if case.get("blank") and not tl and not tr and lcont.strip(" +-") == "" and rcont.strip(" +-") == "" \
+                        and first(cl, "nm") is not None and first(cr, "np") is not None:
+                    exp_l = exp_r = (first(cl, "nm"), first(cr, "np"))
+                    seen_old.append(("k", exp_l[0])); seen_new.append(("k", exp_r[1]))
+                # numbers of the lines that start in this row; a panel's own placeholder is exact, the
+                # other placeholder may also be blank
+                nums = (exp_l[0] if exp_l[0] is not None else exp_r[0], exp_r[1] if exp_r[1] is not None else exp_l[1])
+                for cells_, own_, cont_ in ((cl, "nm", lcont), (cr, "np", rcont)):
+                    bad = cells_wrong(cells_, nums[0], nums[1], own_)
+                    if bad:
+                        sig = CROSS_SIG if (bad[1] and cont_.strip(" +-") == "") else "numbers-wrong"
+                        res["fail"] = ("sbs:" + sig, f"row L={lcont[:24]!r} R={rcont[:24]!r} (lines starting here: old/new {nums}), "
+                                       + ("left" if own_ == "nm" else "right") + " panel: " + bad[0])
                         return res
-                if (has_nm and ln != {exp_l}) or (has_np and rn != {exp_r}):
-                    res["fail"] = ("sbs:numbers-wrong", f"row L={lcont[:24]!r} R={rcont[:24]!r} shows old={ln} new={rn}; true old={exp_l} new={exp_r}")
-                    return res
-                w = field_ok(fl, ml, "l") or field_ok(fr, mr, "r")
+                w = field_ok(cl, fl) or field_ok(cr, fr)
                 if w:
                     res["fail"] = ("sbs:field-width", w)
                     return res
@@ -956,7 +1068,7 @@ def make_binary_cases(ctx, count):
         if lbs != 32:
             base.append(f"--line-buffer-size={lbs}")
         for sbs in (False, True):
-            custom = rng.random() < 0.6
+            custom = rng.random() < 0.6 and not blank     # empty-context-line inputs: default formats
             fl, fr = (gen_fmt(rng, "nm"), gen_fmt(rng, "np")) if custom else DEFAULT_FMTS[sbs]
             width = rng.choice([100, 120, 160, 200]) if sbs else rng.choice([60, 80, 200])
             args = list(base) + ([f"--width={width}", "-s", "--wrap-max-lines=" + rng.choice(["unlimited", "2", "4", "0"])] if sbs else ["-n", f"--width={width}"])
@@ -1088,12 +1200,17 @@ def replay(ctx, rep, obj):
             for h in f["hunks"]:
                 h["truth"] = [tuple(t) for t in h["truth"]]
         eval_binary(ctx, rep, [c], mdl)
-    elif kind in ("hook-sbs", "hook-blocks", "hook"):
+    elif kind in ("hook-sbs", "hook-blocks", "hook", "hook-machine"):
         hook = ctx.hook()
         reqs = (["cfg " + " ".join(hx(x) for x in case["cfg"])] if "cfg" in case else []) + ([case["req"]] if "req" in case else case.get("reqs", []))
         ans = hook.ask(reqs, sticky=[0] if "cfg" in case else [])
         rep.case(key=("replay", repr(reqs)), nontrivial=True, sample=dict(reqs=reqs, impl=ans))
         rep.notes["replay_answers"] = ans
+        if kind == "hook-machine":
+            bad = machine_oracle(Fmt([tuple(q) for q in case["fl"]]), Fmt([tuple(q) for q in case["fr"]]),
+                                 [tuple(x) for x in case["pairs"]], [tuple(x) for x in case["steps"]], ans[-1])
+            if bad and bad != "n/a":
+                rep.violation("machine:numbers-wrong", bad, case)
         if kind == "hook-sbs" and "fl" in case and ans and ans[-1].startswith("ok "):
             cc = case["case"]
             fl, fr = Fmt([tuple(q) for q in case["fl"]]), Fmt([tuple(q) for q in case["fr"]])
@@ -1102,7 +1219,7 @@ def replay(ctx, rep, obj):
             bad = sbs_oracle(fl, fr, cc["a"], cc["c"], cc["m"], cc["p"], al, rwl, rwr, rows,
                              decode_sbs(rows, lw, rw, pl, fl, fr), left, right)
             if bad:
-                rep.violation("sbs_block:numbers-wrong", bad, case)
+                rep.violation("sbs_block:" + bad[1], bad[0], case)
         # re-evaluate with the full machinery as well (the stored case is part of the generated space)
         run(ctx, rep)
     else:
